@@ -1,0 +1,26 @@
+//go:build verif
+
+package mpsc
+
+// VerifState is a snapshot of the accumulator for the verification harness; to be
+// taken only while every goroutine using it is parked at a scheduling point or blocked.
+type VerifState[T any] struct {
+	Chain        []T  // values reachable from the consumer's position, in link order
+	EndLinked    bool // the chain ends with the sentinel inserted by Close
+	HeadNil      bool
+	Closed       bool
+	SignalTokens int
+}
+
+// VerifSnapshot returns the internal state without synchronisation.
+func (a *Accumulator[T]) VerifSnapshot() VerifState[T] {
+	s := VerifState[T]{HeadNil: a.head.Load() == nil, Closed: a.closed.Load(), SignalTokens: len(a.signal)}
+	for n := a.tail.Next.Load(); n != nil; n = n.Next.Load() {
+		if n.Kind == end {
+			s.EndLinked = true
+			break
+		}
+		s.Chain = append(s.Chain, n.Value)
+	}
+	return s
+}
